@@ -50,7 +50,7 @@ PROPS["C18"] = dict(
                 "every accepted finite position, every precision/length). "
                 "Georef integer round trip for every cell and precision: georef_decode_encode_tile / _degree / _long (the digit loop of Reverse is "
                 "turned into a fold, Proofs/GeorefLoop.lean, and evaluated on the digits of the encoder for all prec 2..11). "
-                "Not proved: scale_contains for the multi-step OSGB scale; decode∘encode for OSGB (its Reverse is floating point; correspondence only)."),
+                "osgb_tile_contains covers the first OSGB scale step (x / tile, floor). Not proved: the later steps of the multi-step OSGB scale; decode∘encode for OSGB (its Reverse is floating point; correspondence only)."),
     level_note=("alphabets and integer constants of all four classes regenerated from the sources each run; hand-written models of Forward/Reverse; "
                 "pow(10,k) and integer→double conversions assumed exact (they are, for the ranges used)"),
     technique="Lean 4 proof of the integer codecs + exact-arithmetic correspondence of the scaling step and decoders against the implementation",
